@@ -23,6 +23,12 @@ LEVEL = {
             "invalid mixes / foreign namespaces / unknown resources are errors, one hook request per (UID, generation) while cached; every real sync with a customize hook is "
             "replayed against the model and its related map compared with a selection computed from the statement; related-object events are delivered to the real handlers "
             "and every selected object must wake its parent", NOTE_SYNC, "Lean 4 proof over a hand-written model + trace-replay and event correspondence checks"),
+    "C18": ("Lean theorems about the factory/handler state machine for every operation sequence: an inductive invariant (an informer runs exactly while a subscription to it is open, "
+            "one running informer per resource), reference count = open subscriptions, fresh informer after the last close, replay on add, delivery to exactly the registered handlers, "
+            "silence after removal, isolation between subscriptions; the real factory is driven through generated operation sequences against a LIST/WATCH simulator and compared with "
+            "the model step by step; timers and goroutine scheduling are not modelled",
+            "trusted: Lean kernel (+propext, Quot.sound, Classical.choice), Go harness + LIST/WATCH simulator, driver JSON reader; modelled not verified: client-go shared informers, timers",
+            "Lean 4 proof over a hand-written state machine + operation-sequence correspondence check"),
     "C14": ("Lean theorems: for every event and every cache with unique keys, the handler models enqueue exactly the parents named by a declarative specification "
             "(soundness and completeness per handler, composite and decorator; replays silent; unadmitted parents never queued; a controlled child wakes at most one parent); "
             "the real handlers are called with generated events and their queue contents compared with the model and judged by the specification", NOTE_SYNC,
